@@ -24,6 +24,7 @@ type c04Task struct {
 	Corrupt string `json:"corrupt"`  // "" | drop:i | insert:i | swap:i:j | alter:i
 	Syncing bool   `json:"syncing"`  // corrupted block served during the initial sync (node not in sync yet)
 	Reorg   bool   `json:"reorg,omitempty"` // after the block was processed a competing block at the same height with the same txs in another order wins
+	CoinbaseRel bool `json:"coinbase_rel,omitempty"` // the coinbase (index 0) pays the subscribed key hash
 	Conflict bool  `json:"conflict,omitempty"` // every relevant tx that was seen before also saw a double spend of itself (flagged unsafe) before the block
 	Crash   int    `json:"crash,omitempty"` // >0: the block is part of the initial sync and the process dies after the (Crash-1)-th storage mutation, then restarts
 	Direct  bool   `json:"direct"`   // corrupted block handed straight to the exported Node.ProcessBlock of a loaded, not yet running node
@@ -300,7 +301,17 @@ func c04Exec(t c04Task) c04Result {
 	}
 	w.Tick(100e6)
 	before := w.Node.LastHeight(core.Ctx())
+	if t.CoinbaseRel {
+		core.CoinbaseScript = core.P2PKHScript(subKey)
+	}
 	b := w.Tree.mine(w.Best[len(w.Best)-1], txs, names)
+	core.CoinbaseScript = nil
+	if t.CoinbaseRel {
+		cb := b.msg.Transactions[0]
+		w.Txs["cb"], w.TxNames[*cb.TxHash()] = cb, "cb"
+		w.txOrder = append(w.txOrder, "cb")
+		b.txs = append([]string{"cb"}, b.txs...)
+	}
 	w.Best = append(w.Best, b.name)
 	if t.Corrupt == "" {
 		w.Announce(w.P)
@@ -335,6 +346,12 @@ func c04Exec(t c04Task) c04Result {
 			}
 			if !seenBefore && (k.newCount != 1 || k.states[0].MerkleProof == nil) {
 				w.fail("C04", "first-seen-gets-new-with-proof", "tx first seen in the block not delivered as new with proof", n)
+			}
+		}
+		if t.CoinbaseRel {
+			k := tr["cb"]
+			if k == nil || k.newCount != 1 || k.states[0].MerkleProof == nil {
+				w.fail("C04", "first-seen-gets-new-with-proof", "relevant coinbase (index 0) not delivered as new with proof", fmt.Sprintf("block of %d txs", t.N))
 			}
 		}
 		res.Outcome = fmt.Sprintf("n=%d relevant=%d seen=%s", t.N, seenCount, t.Seen)
@@ -516,6 +533,9 @@ func runC04() int {
 					continue
 				}
 				add(c04Task{N: n, RelMask: m, Seen: seen})
+				if seen == "none" && (m == 0 || m&(m-1) == 0) {
+					add(c04Task{N: n, RelMask: m, Seen: seen, CoinbaseRel: true})
+				}
 				if seen != "none" && m != 0 && n <= reorgN {
 					add(c04Task{N: n, RelMask: m, Seen: seen, Conflict: true})
 				}
@@ -570,7 +590,7 @@ func runC04() int {
 	rep.Coverage["traces_validated_against_impl"] = execs
 	rep.Coverage["evaluations"] = execs
 	rep.Coverage["distinct_nontrivial"] = len(rep.Outcomes)
-	rep.Coverage["rule"] = fmt.Sprintf("bounded-exhaustive enumeration through the real path (in-sync Node.Run, peer announces and serves one block): block sizes 1..%d, every subset of relevant positions for n<=%d and all singletons/pairs above, relevant txs previously delivered (all / none / alternating); corrupted bodies (drop i, insert at i, swap i/j, alter i) under an unchanged header for n<=%d, served while in sync, during the initial sync, and handed directly to Node.ProcessBlock of a loaded node, only where the independently computed root differs from the header. For n<=%d (the same bound as the reorganisation variant) the previously seen relevant txs were also flagged unsafe by a double spend attempt before they confirm. For n<=%d with two or more relevant txs the block is part of the initial sync and the process dies after every single storage mutation of that sync, restarts on the surviving storage and syncs again (every notification before and after must carry a proof for the held header). For n<=%d additionally a one-block reorganisation after the block was processed: the winning block holds the same txs rotated plus one more, and the re-confirmation must carry a proof for the winning block. Oracle: at the moment of every notification the node holds the proof's header at that height; independent merkle path verifier against the header at that height, true index, depth 0, new vs update kind; corrupted: height unchanged, nothing delivered.", maxN, fullN, corrN, reorgN, crashN, reorgN)
+	rep.Coverage["rule"] = fmt.Sprintf("bounded-exhaustive enumeration through the real path (in-sync Node.Run, peer announces and serves one block): block sizes 1..%d, every subset of relevant positions for n<=%d and all singletons/pairs above, relevant txs previously delivered (all / none / alternating), the coinbase itself relevant; corrupted bodies (drop i, insert at i, swap i/j, alter i) under an unchanged header for n<=%d, served while in sync, during the initial sync, and handed directly to Node.ProcessBlock of a loaded node, only where the independently computed root differs from the header. For n<=%d (the same bound as the reorganisation variant) the previously seen relevant txs were also flagged unsafe by a double spend attempt before they confirm. For n<=%d with two or more relevant txs the block is part of the initial sync and the process dies after every single storage mutation of that sync, restarts on the surviving storage and syncs again (every notification before and after must carry a proof for the held header). For n<=%d additionally a one-block reorganisation after the block was processed: the winning block holds the same txs rotated plus one more, and the re-confirmation must carry a proof for the winning block. Oracle: at the moment of every notification the node holds the proof's header at that height; independent merkle path verifier against the header at that height, true index, depth 0, new vs update kind; corrupted: height unchanged, nothing delivered.", maxN, fullN, corrN, reorgN, crashN, reorgN)
 	rep.Assumptions = append(peerAssumption, "duplicate-tail merkle malleability (corruptions that keep the root) is not asserted")
 	return rep.Finish()
 }
